@@ -29,6 +29,9 @@ func (gdef *GDEF) parseMarkGlyphSetsDef(src []byte) error {
 	}
 	offset := binary.BigEndian.Uint16(src[headerSize:])
 	if offset != 0 {
+		if L := len(src); L < int(offset) {
+			return fmt.Errorf("EOF: expected length: %d, got %d", offset, L)
+		}
 		var err error
 		gdef.MarkGlyphSetsDef, _, err = ParseMarkGlyphSets(src[offset:])
 		if err != nil {
